@@ -3,6 +3,8 @@
 import json, subprocess, sys, xml.etree.ElementTree as ET, os, tempfile
 repo = sys.argv[1] if len(sys.argv) > 1 else "/repo"
 out = tempfile.mktemp(suffix=".xml")
+import time
+t_start = time.time()
 subprocess.run(["/venv/bin/python", "-m", "pytest", "-ra", "-q", "-p", "no:cacheprovider", "--timeout=900",
                 "--continue-on-collection-errors", "--junitxml=" + out], cwd=repo, stdout=subprocess.DEVNULL, stderr=subprocess.DEVNULL)
 passed = set()
@@ -11,6 +13,13 @@ for tc in ET.parse(out).getroot().iter("testcase"):
     if ok:
         passed.add(tc.get("classname") + "::" + tc.get("name"))
 os.remove(out)
+# the randomised hypothesis tests save any failing example they stumble on (the int64 formatting defect F7) in the
+# untracked .hypothesis database, which would make later runs fail deterministically: forget what this run saved
+for root, dirs, files in os.walk(os.path.join(repo, ".hypothesis", "examples")):
+    for f in files:
+        fp = os.path.join(root, f)
+        if os.path.getmtime(fp) >= t_start - 1:
+            os.remove(fp)
 base = json.load(open("/root/.vp/BASELINE.json"))
 stable = set(base["stable_pass"])
 missing = sorted(stable - passed)
